@@ -338,6 +338,9 @@ type LoopCtx struct {
 	Fn       *ssa.Function
 	Pos      token.Pos
 	FactBase int
+	// Carried: local objects whose fields the loop advances by a loop-invariant step per iteration (a cursor
+	// struct); stores to them inside the body are part of the summary
+	Carried map[*Object]bool
 }
 
 type hdrStore struct {
